@@ -70,7 +70,7 @@ func (v *zzView) den(src, dst string, srcIP, dstIP bool, addr uint32, proto core
 }
 
 const (
-	zzRelEq = iota
+	zzRelEq       = iota
 	zzRelSubset   // second ⊆ first (never adds)
 	zzRelSuperset // second ⊇ first (never removes)
 )
